@@ -77,6 +77,28 @@ CHECKS = {
              "runs probe attribute visibility at every hook/step, cleanup order/position/exactly-once, error status of the owning "
              "element, and restoration of text/table after execute_steps.",
         note="Trusted: the list-of-dicts model in vf/props/c13.py and vf/refmodel.py. The root scope is never popped (as in real runs)."),
+    "C04": dict(
+        level="exploration", design="DESIGN.md 5/C04",
+        technique="property-based testing: abstract feature trees rendered to Gherkin with recorded facts (round-trip render -> parse), "
+                  "complete enumeration of 80 languages x every keyword alias, partial entry points, describe_* round trip",
+        text="A renderer turns generated abstract trees into Gherkin text and records what a faithful parser must report (kinds, "
+             "nesting, names, keywords as written, tags with lines, descriptions, 1-based lines of every element, table row and "
+             "doc-string, step types with And/But/* inheritance, unescaped cells, de-indented doc-strings); the parsed model is "
+             "compared field by field for random documents with drawn indentation/blank/comment noise, for one document per "
+             "(language, keyword kind, alias) -- complete over the keyword table -- via parse_feature, parse_file, parse_steps, "
+             "parse_scenario, parse_rule, parse_tags.",
+        note="Trusted: vf/program.py renderer (soundness rules in DESIGN.md 2.1). '*' as very first step is read as given; languages "
+             "without a '*' keyword (en-tx, sl) get And instead."),
+    "C05": dict(
+        level="fault_enumeration", design="DESIGN.md 5/C05",
+        technique="fuzzing + fault injection: line soups, all single-line mutations of valid documents, catalogue of grammar faults "
+                  "injected at every applicable position with the expected error line, atheris coverage-guided campaign (thorough)",
+        text="For every generated text and all five entry points the call must return or raise ParserError with 1 <= line <= number "
+             "of lines; root causes are bucketed by (entry point, exception type, innermost behave function). A fault catalogue (second "
+             "Feature / free text / Examples / second Background after steps, And/But without predecessor, wrong cell count, malformed "
+             "tag, doc-string/table before a step) is injected at every position of a valid document where it is a fault and must be "
+             "reported at the injected line. Thorough adds an in-process atheris campaign (empty and seeded corpus, keyword dictionary).",
+        note="Trusted: position computation from renderer facts. Termination only via watchdog. language= argument always a known code."),
 }
 
 PENDING_REASON = "not yet claimed in this revision: the check for this property is still under construction (see DESIGN.md 5)"
